@@ -91,9 +91,8 @@ EXPORT int vfprintf_s(FILE *restrict stream, const char *restrict fmt,
                                            ESNULLP);
         return -(ESNULLP);
     }
-    if (unlikely((p = strstr(fmt, "%n")))) {
-        /* at the beginning or if inside, not %%n */
-        if ((p - fmt == 0) || *(p - 1) != '%') {
+    if (unlikely((p = safec_find_percent_n(fmt)))) {
+        { /* any n conversion, whatever flags, width or length modifier */
             invoke_safe_str_constraint_handler("vfprintf_s: illegal %n", NULL,
                                                EINVAL);
             return -(EINVAL);
